@@ -18,7 +18,7 @@ CFG = {
             "4999/5000/5001, 2^63-1/2^63, used = limit+-1, difficulty +-1, number +-1) singly and in random combinations; public VerifyHeader over an in-memory chain "
             "reader (known header, missing parent/grandparent, wrong number); VerifyHeaders on batches of 1..40 headers with injected faults under GOMAXPROCS 1,2,3,4,8,16 "
             "with and without jitter, compared with one-by-one VerifyHeader+insert; VerifyUncles on generated block trees (side blocks at depth 1..9, duplicates, ancestors, "
-            "invalid, far-future, orphan, exemption-keyed uncles, 0..3 uncles, shallow histories, heights around HF5 and 15000). Non-trivial = a case the real code did not panic on.",
+            "invalid, far-future, orphan, exemption-keyed uncles, 0..3 uncles, shallow histories, heights around HF5 and 15000; uncles re-offered across a version fork); header timestamps 2^64*k + t (plausible low 64 bits) for non-uncle headers through verifyHeader, VerifyHeader, VerifyHeaders, InsertHeaderChain and InsertChain; the real HeaderChain.ValidateHeaderChain / BlockChain.InsertHeaderChain / InsertChain on a real chain (memory DB) with linked batches and non-contiguous ones (item i re-pointed at a known sibling of item i-1 for i = 1 and i >= 2, at an ancestor, at an unknown hash; number gap; swapped order) - a refused batch must leave nothing behind. Non-trivial = a case the real code did not panic on.",
     "tie": {"params.isForked, (*ChainConfig).IsHF / GetHF (mini-translator)": "translated (go/ssa -> Lean on every run; isHF_code_is_model) + corr",
             "params fork maps / difficulty, gas-limit, extra-data constants": "gen (value dump of package params)",
             "aquahash.maxUncles, maxUnclesHF5, allowedFutureBlockTime": "gen (value dump of package aquahash)",
@@ -26,7 +26,9 @@ CFG = {
             "(*Aquahash).verifyHeader": "corr (overlay accessor vs Model.verifyHeader) + Spec judgement (headerRule)",
             "(*Aquahash).VerifyHeader": "corr (vs Model.verifyHeaderEntry)",
             "(*Aquahash).VerifyHeaders / verifyHeaderWorker": "corr (observed result sequence vs Model.verifyHeadersBatch) + Spec judgement (one-by-one first failure), schedules by GOMAXPROCS/jitter",
-            "(*Aquahash).VerifyUncles": "corr (vs Model.verifyUncles) + Spec judgement (UnclesValid)"},
+            "(*Aquahash).VerifyUncles": "corr (vs Model.verifyUncles) + Spec judgement (UnclesValid)",
+            "(*HeaderChain).ValidateHeaderChain / (*BlockChain).InsertHeaderChain": "corr (vs Model.validateHeaderChain = linkage pre-check + batch) + Spec judgement (one-by-one; nothing stored on refusal); the pre-check is what establishes BatchOk.contiguous (validateHeaderChain_establishes_contiguity)",
+            "(*BlockChain).InsertChain (linkage pre-check of insertChain2)": "direct judgement on the real code (the offending item and its successors are never stored / never head)"},
     "assumptions": ["time.Now() is a parameter of the model; generated timestamps keep >= 1000 s from the 15 s edge except in the clock-edge sub-test, which uses the harness' own reading with 3 s slack",
                     "header hashes are opaque values computed by the real code (Header.Hash under the version selected by height); hash collision-freedom between stored and batch headers is an explicit hypothesis of batch_equals_sequential",
                     "the chain reader is closed under parents (a known header has a known parent/grandparent) - hypothesis BatchOk.closed, true of a chain database",
